@@ -422,7 +422,7 @@ def selftest(tier):
 
 
 def meta(tier):
-    return {
+    m = {
         "functions": [Rule._ensure_level_objects, Rule.get_objects, Rule.backward_map, Rule.forward_map, CartesianProduct.get_sub_objects,
                       DisjointUnion.get_sub_objects, CartesianProduct.params_value_pairs_combinations, compositions,
                       EquivalenceRule.forward_map, EquivalenceRule.backward_map, ReverseRule.forward_map, ReverseRule.backward_map,
@@ -434,3 +434,5 @@ def meta(tier):
         "stubs": ["stub classes/strategies; objects are tagged tuples; Union.forward_map locates an object by its tag"],
         "assumptions": ["reference object semantics of a genuine union/product (union_objects, product_objects)"],
     }
+    m["bounds"] = str(m.get("bounds", "")) + " || end-to-end groups of this run: " + e2e.describe_groups(groups(tier))
+    return m
